@@ -232,6 +232,17 @@ def _method_ufunc(name):
     return f
 
 
+def model_arctan2(y, x, **kw):
+    if not (is_obj(y) or is_obj(x) or isinstance(y, SYM) or isinstance(x, SYM)):
+        return _ORIG['arctan2'](y, x, **kw)
+    from .transc import CircAng
+    ya, xa = np.broadcast_arrays(np.asarray(y, dtype=object), np.asarray(x, dtype=object))
+    out = np.empty(ya.shape, dtype=object)
+    for idx in np.ndindex(*ya.shape):
+        out[idx] = CircAng(F.lift(xa[idx]), F.lift(ya[idx]))
+    return out if out.shape else out[()]
+
+
 def _no_model(name):
     def f(a, *args, **kw):
         if is_obj(np.asarray(a)):
@@ -260,7 +271,7 @@ _NP_PATCHES = {
     'real': model_real, 'imag': model_imag, 'isclose': model_isclose,
     'sqrt': _method_ufunc('sqrt'), 'cos': _method_ufunc('cos'), 'sin': _method_ufunc('sin'), 'arccosh': _method_ufunc('arccosh'),
     'arcsinh': _method_ufunc('arcsinh'), 'arccos': _method_ufunc('arccos'), 'arcsin': _method_ufunc('arcsin'), 'exp': _method_ufunc('exp'),
-    'sinh': _method_ufunc('sinh'), 'cosh': _method_ufunc('cosh'), 'tanh': _method_ufunc('tanh'), 'tan': _method_ufunc('tan'), 'arctan': _method_ufunc('arctan'),
+    'sinh': _method_ufunc('sinh'), 'cosh': _method_ufunc('cosh'), 'tanh': _method_ufunc('tanh'), 'tan': _method_ufunc('tan'), 'arctan': _method_ufunc('arctan'), 'arctan2': model_arctan2,
 }
 _LA_PATCHES = {
     'inv': model_inv, 'det': model_det, 'norm': model_norm,
